@@ -19,7 +19,9 @@ RULE = (
     "frame fields, sender, LQI, RSSI in {-128, -1, 0, 127, any}, payload length 0..100, binding/address indexes, (v14) "
     "EUI64 and timestamp; trustCenterJoinHandler with every device-update x decision combination (defined and undefined), "
     "generated addresses incl. the Xiaomi/Lumi IEEE prefixes; zigpy's device table empty or holding the sender's EUI64 under "
-    "another (stale) short address, another device on the sender's short address, both, or the exact device. Non-trivial = message type is deliverable with non-empty "
+    "another (stale) short address, another device on the sender's short address, both, or the exact device; plus sequences of 2-5 such callbacks into one "
+    "application with the own address changing in between, back-to-back arrival, and the NCP answering the manufacturer-code "
+    "command at once / slowly / never. Non-trivial = message type is deliverable with non-empty "
     "payload, or any join callback; distinct by (version, frame bytes)."
 )
 ASSUMPTIONS = [
@@ -157,8 +159,111 @@ def check(plan) -> Result:
     return r
 
 
+def expect(item, own):
+    """What one callback must produce: (packets as field dicts, joins, leaves)."""
+    import zigpy.types as zt
+
+    if item["t"] == "msg":
+        mt = item["mtype"]
+        if mt not in (refezsp.INCOMING_UNICAST, refezsp.INCOMING_MULTICAST, refezsp.INCOMING_BROADCAST):
+            return [], [], []
+        if mt == refezsp.INCOMING_UNICAST:
+            dst = (zt.AddrMode.NWK, own)
+        elif mt == refezsp.INCOMING_MULTICAST:
+            dst = (zt.AddrMode.Group, item["group"])
+        else:
+            dst = (zt.AddrMode.Broadcast, None)
+        return [dict(src=item["sender"], src_ep=item["src_ep"], dst_ep=item["dst_ep"], tsn=item["aps_seq"], profile=item["profile"],
+                     cluster=item["cluster"], data=bytes.fromhex(item["data"]), lqi=item["lqi"], rssi=item["rssi"], dst=dst)], [], []
+    ieee = bytes.fromhex(item["eui64"])
+    if item["status"] == refezsp.DEVICE_LEFT:
+        return [], [], [(item["nwk"], ieee)]
+    if item["decision"] == refezsp.DENY_JOIN:
+        return [], [], []
+    return [], [(item["nwk"], ieee, item["parent"])], []
+
+
+async def scenario_seq(loop, plan, out):
+    """Several callbacks into ONE application: what a callback yields must not depend on the callbacks before it,
+    on the own address having changed in between, or on how quickly the NCP answers the manufacturer-code commands."""
+    import dataclasses
+
+    import bellows.ezsp as e
+    import zigpy.types as zt
+
+    v = plan["v"]
+    sim = CbSim(loop, v)
+    if plan.get("mfg") == "silent":
+        sim.script["setManufacturerCode"] = lambda s_, args: None
+    elif plan.get("mfg") == "slow":
+        sim.delay = 0.3
+    ezsp = e.EZSP({"path": "/dev/null"})
+    sim.attach(ezsp)
+    ezsp._switch_protocol_version(v)
+    ezsp.start_ezsp()
+    app = zshim.make_app()
+    app._ezsp = ezsp
+    own = plan["items"][0].get("own", OWN_NWK)
+    app.state.node_info.nwk = zt.NWK(own)
+    packets, joins, leaves = [], [], []
+    app.packet_received = lambda p: packets.append(p)
+    app.handle_join = lambda nwk, ieee, parent, *a, **k: joins.append((int(nwk), bytes(ieee.serialize()), int(parent)))
+    app.handle_leave = lambda nwk, ieee, *a, **k: leaves.append((int(nwk), bytes(ieee.serialize())))
+    ezsp.add_callback(app.ezsp_callback_handler)
+    want = ([], [], [])
+    out["raised"] = None
+    for item in plan["items"]:
+        if item.get("own", own) != own:
+            own = item["own"]
+            # the network settings were re-read (restore / re-form): zigpy replaces the node information
+            app.state.node_info = dataclasses.replace(app.state.node_info, nwk=zt.NWK(own))
+        w = expect(item, own)
+        for a, b in zip(want, w):
+            a.extend(b)
+        try:
+            # a conforming NCP tags a callback with the sequence number of the last response it sent (never that of a
+            # command still waiting for its response)
+            ezsp.frame_received(build(dict(item, seq=sim.last_resp_seq & 0xFF)))
+        except Exception as ex:
+            out["raised"] = repr(ex)
+        if item.get("gap"):
+            await asyncio.sleep(item["gap"])
+    await asyncio.sleep(30)
+    out.update(packets=packets, joins=joins, leaves=leaves, want=want)
+
+
+def check_seq(plan) -> Result:
+    r = Result(nontrivial=len(plan["items"]) > 1, classes=["sequence", f"seq-len:{len(plan['items'])}"])
+    out = {}
+    try:
+        vloop.run_case(lambda loop: scenario_seq(loop, plan, out), horizon=1e6)
+    except vloop.Hang:
+        r.bad("C13:hang", f"{plan}")
+        return r
+    if out["raised"]:
+        r.bad("C13:receive-raises", f"{out['raised']}; plan {plan}")
+        return r
+    wp, wj, wl = out["want"]
+    got_p = [dict(src=int(p.src.address), src_ep=int(p.src_ep), dst_ep=int(p.dst_ep), tsn=int(p.tsn), profile=int(p.profile_id),
+                  cluster=int(p.cluster_id), data=bytes(p.data.serialize()), lqi=int(p.lqi), rssi=int(p.rssi),
+                  dst=(p.dst.addr_mode, None if p.dst.addr_mode.name == "Broadcast" else int(p.dst.address))) for p in out["packets"]]
+    if got_p != wp:
+        k = next((i for i, (g, w) in enumerate(zip(got_p, wp)) if g != w), min(len(got_p), len(wp)))
+        diff = [f for f in (wp[k] if k < len(wp) else {}) if k >= len(got_p) or got_p[k].get(f) != wp[k][f]]
+        r.bad("C13:sequence:packets-differ" + (":" + diff[0] if diff else ""), f"packet {k}: got {got_p[k] if k < len(got_p) else None}, want {wp[k] if k < len(wp) else None}; plan {plan}")
+    if out["joins"] != wj:
+        r.bad("C13:sequence:joins-differ", f"got {out['joins']}, want {wj}; plan {plan}")
+    if out["leaves"] != wl:
+        r.bad("C13:sequence:leaves-differ", f"got {out['leaves']}, want {wl}; plan {plan}")
+    if plan.get("mfg"):
+        r.cls("mfg-code-" + plan["mfg"])
+    if len({i.get("own", 0) for i in plan["items"]}) > 1:
+        r.cls("own-address-changes")
+    return r
+
+
 def replay(plan) -> Result:
-    return check(plan)
+    return check_seq(plan) if "items" in plan else check(plan)
 
 
 u8 = st.one_of(st.sampled_from([0, 1, 254, 255]), st.integers(0, 255))
@@ -214,8 +319,30 @@ def _join_plans(v):
     })
 
 
+@st.composite
+def seq_plans(draw, v):
+    n = draw(st.integers(2, 5))
+    items = []
+    for _ in range(n):
+        it = dict(draw(st.one_of(_msg_plans(v), _msg_plans(v), _join_plans(v))))
+        if it["t"] == "msg" and draw(st.booleans()):
+            it["mtype"] = draw(st.sampled_from([refezsp.INCOMING_UNICAST, refezsp.INCOMING_MULTICAST, refezsp.INCOMING_BROADCAST]))
+        if it["t"] == "join" and draw(st.booleans()):
+            # an allowed join, more often than not of a device with one of the special IEEE prefixes
+            it["status"], it["decision"] = draw(st.sampled_from([0, 1, 3])), draw(st.sampled_from([0, 1, 3]))
+        it["own"] = draw(st.sampled_from([0x0000, 0x0000, 0x0000, 0x1234, 0x4A2B]))
+        it["gap"] = draw(st.sampled_from([0, 0, 0.001, 0.05, 1.0, 40.0]))
+        items.append(it)
+    plan = {"v": v, "items": items}
+    m = draw(st.sampled_from([None, None, "slow", "silent"]))
+    if m:
+        plan["mfg"] = m
+    return plan
+
+
 def _worker(ctx, job):
     v, n = job
+    ctx.search(seq_plans(v), check_seq, max_examples=max(n // 2, 30))
     ctx.search(msg_plans(v), check, max_examples=n)
     ctx.search(join_plans(v), check, max_examples=max(n // 3, 20))
     # every update x decision combination
